@@ -1,7 +1,327 @@
-//! C22 — not built yet.
-use lv_common::Ctx;
+//! C22 — The persistent store survives crashes at any point (level: fault_enumeration).
+//!
+//! A logging `redb::StorageBackend` records every `write`, `set_len` and `sync_data` issued while a
+//! generated op history runs on `RedbStore::new(db over backend)`, interleaved with harness markers
+//! ("op k started", "op k returned"). Every log position is a crash point. The surviving image is the
+//! image at the last completed sync plus a subset of the later whole writes (none / all / generated
+//! subsets / each single write dropped for short tails). A fresh database + `RedbStore::new` over the
+//! image must open and its observable state must equal the model state after some prefix of the
+//! history that includes every operation that had returned before the crash.
 
-pub fn run(_ctx: &mut Ctx) {
-    eprintln!("C22: check not built yet");
-    std::process::exit(2);
+use std::sync::{Arc, Mutex};
+
+use lumina_node::store::{RedbStore, Store};
+use lv_common::Prng;
+use lv_common::prelude::*;
+
+use crate::c19::{self, Case, Model, Op, Snapshot, cid_of, diff, model_snapshot, resolve_batch, snapshot};
+
+#[derive(Clone, Debug)]
+enum Entry {
+    Write { off: u64, data: Vec<u8> },
+    SetLen(u64),
+    Sync,
+    /// op k is about to be issued
+    Start(usize),
+    /// op k returned
+    Ret(usize),
+}
+
+#[derive(Debug, Default)]
+struct Shared {
+    image: Vec<u8>,
+    log: Vec<Entry>,
+}
+
+#[derive(Debug, Clone)]
+struct LogBackend(Arc<Mutex<Shared>>);
+
+fn oob() -> std::io::Error {
+    std::io::Error::new(std::io::ErrorKind::InvalidInput, "out of range")
+}
+
+impl redb::StorageBackend for LogBackend {
+    fn len(&self) -> Result<u64, std::io::Error> {
+        Ok(self.0.lock().unwrap().image.len() as u64)
+    }
+    fn read(&self, offset: u64, len: usize) -> Result<Vec<u8>, std::io::Error> {
+        let g = self.0.lock().unwrap();
+        let o = offset as usize;
+        if o + len <= g.image.len() { Ok(g.image[o..o + len].to_vec()) } else { Err(oob()) }
+    }
+    fn set_len(&self, len: u64) -> Result<(), std::io::Error> {
+        let mut g = self.0.lock().unwrap();
+        g.image.resize(len as usize, 0);
+        g.log.push(Entry::SetLen(len));
+        Ok(())
+    }
+    fn sync_data(&self, _eventual: bool) -> Result<(), std::io::Error> {
+        self.0.lock().unwrap().log.push(Entry::Sync);
+        Ok(())
+    }
+    fn write(&self, offset: u64, data: &[u8]) -> Result<(), std::io::Error> {
+        let mut g = self.0.lock().unwrap();
+        let o = offset as usize;
+        if o + data.len() > g.image.len() {
+            return Err(oob());
+        }
+        g.image[o..o + data.len()].copy_from_slice(data);
+        g.log.push(Entry::Write { off: offset, data: data.to_vec() });
+        Ok(())
+    }
+}
+
+/// plain (non-logging) backend over a crash image
+#[derive(Debug)]
+struct ImageBackend(Mutex<Vec<u8>>);
+
+impl redb::StorageBackend for ImageBackend {
+    fn len(&self) -> Result<u64, std::io::Error> {
+        Ok(self.0.lock().unwrap().len() as u64)
+    }
+    fn read(&self, offset: u64, len: usize) -> Result<Vec<u8>, std::io::Error> {
+        let g = self.0.lock().unwrap();
+        let o = offset as usize;
+        if o + len <= g.len() { Ok(g[o..o + len].to_vec()) } else { Err(oob()) }
+    }
+    fn set_len(&self, len: u64) -> Result<(), std::io::Error> {
+        self.0.lock().unwrap().resize(len as usize, 0);
+        Ok(())
+    }
+    fn sync_data(&self, _: bool) -> Result<(), std::io::Error> {
+        Ok(())
+    }
+    fn write(&self, offset: u64, data: &[u8]) -> Result<(), std::io::Error> {
+        let mut g = self.0.lock().unwrap();
+        let o = offset as usize;
+        if o + data.len() > g.len() {
+            return Err(oob());
+        }
+        g[o..o + data.len()].copy_from_slice(data);
+        Ok(())
+    }
+}
+
+fn apply(img: &mut Vec<u8>, e: &Entry) {
+    match e {
+        Entry::Write { off, data } => {
+            let o = *off as usize;
+            if o + data.len() > img.len() {
+                img.resize(o + data.len(), 0);
+            }
+            img[o..o + data.len()].copy_from_slice(data);
+        }
+        Entry::SetLen(n) => img.resize(*n as usize, 0),
+        _ => {}
+    }
+}
+
+#[derive(Clone, Debug, Serialize, Deserialize)]
+pub struct CrashCase {
+    pub history: Case,
+    pub subset_seed: u64,
+}
+
+async fn reopen(img: Vec<u8>, heights: &[u64], hashes: &[celestia_types::hash::Hash]) -> Result<Snapshot, String> {
+    let db = redb::Database::builder()
+        .create_with_backend(ImageBackend(Mutex::new(img)))
+        .map_err(|e| format!("redb could not open the crash image: {e}"))?;
+    let store = RedbStore::new(Arc::new(db)).await.map_err(|e| format!("RedbStore::new failed on the crash image: {e}"))?;
+    let snap = snapshot(&store, heights, hashes).await;
+    // internal consistency beyond the model comparison: identity must be readable
+    store.get_identity().await.map_err(|e| format!("identity unreadable after reopen: {e}"))?;
+    let _ = store.close().await;
+    Ok(snap)
+}
+
+async fn run_case(case: &CrashCase, obs: &mut Obs<'_>) -> Result<(), Failure> {
+    let u = c19::build_universe(&case.history);
+    let n = u.honest.headers.len();
+    let shared = Arc::new(Mutex::new(Shared::default()));
+    let db = redb::Database::builder()
+        .create_with_backend(LogBackend(shared.clone()))
+        .map_err(|e| Failure::new("harness:redb-create", e.to_string()))?;
+    let store = RedbStore::new(Arc::new(db)).await.map_err(|e| Failure::new("harness:store-new", e.to_string()))?;
+    // The property quantifies over crashes while operations run on an (existing) store: crash points
+    // start once the database and the store's own initialisation are complete.
+    let init_len = shared.lock().unwrap().log.len();
+
+    // run the history once, recording model snapshots after each prefix
+    let mut model = Model::default();
+    let mut prefix_snaps: Vec<Snapshot> = vec![model_snapshot(&model, &u.heights, &u.hashes)];
+    let mut descs: Vec<String> = Vec::new();
+    for (k, op) in case.history.ops.iter().enumerate() {
+        let stored: Vec<u64> = model.headers.keys().copied().collect();
+        let pick_h = |sel: u16, bias: bool| -> u64 {
+            if bias && !stored.is_empty() { stored[pick(sel, stored.len())] } else { pick(sel, n + 2) as u64 }
+        };
+        shared.lock().unwrap().log.push(Entry::Start(k));
+        let mut trial = model.clone();
+        let (res, expected, desc) = match op {
+            Op::Insert { place, len, src, mal } => {
+                let b = resolve_batch(&u, &model, place, *len, *src, mal, obs);
+                let d = format!("insert {:?}", b.iter().map(|h| h.height()).collect::<Vec<_>>());
+                (store.insert(b.clone()).await.map_err(|e| e.to_string()), trial.insert(&b), d)
+            }
+            Op::Remove { h, stored_bias } => {
+                let h = pick_h(*h, *stored_bias);
+                (store.remove_height(h).await.map_err(|e| e.to_string()), trial.remove(h), format!("remove {h}"))
+            }
+            Op::MarkSampled { h, stored_bias } => {
+                let h = pick_h(*h, *stored_bias);
+                (store.mark_as_sampled(h).await.map_err(|e| e.to_string()), trial.mark(h), format!("mark_sampled {h}"))
+            }
+            Op::UpdateMeta { h, stored_bias, cids } => {
+                let h = pick_h(*h, *stored_bias);
+                let c: Vec<_> = cids.iter().map(|c| cid_of(*c)).collect();
+                (store.update_sampling_metadata(h, c.clone()).await.map_err(|e| e.to_string()), trial.update_meta(h, &c), format!("update_meta {h} x{}", c.len()))
+            }
+        };
+        shared.lock().unwrap().log.push(Entry::Ret(k));
+        if res.is_ok() != expected.is_ok() {
+            // conformance is C19's business; a diverged history cannot be judged here
+            obs.note(format!("history cut at op {k} ({desc}): store result {res:?} differs from the model {expected:?} (judged by C19)"));
+            break;
+        }
+        if expected.is_ok() {
+            model = trial;
+        }
+        descs.push(format!("{desc} -> {}", if res.is_ok() { "ok" } else { "err" }));
+        prefix_snaps.push(model_snapshot(&model, &u.heights, &u.hashes));
+    }
+    let _ = store.close().await;
+    let log: Vec<Entry> = shared.lock().unwrap().log.clone();
+    let ops_run = prefix_snaps.len() - 1;
+
+    // enumerate crash points
+    let mut base: Vec<u8> = Vec::new(); // image at the last completed sync
+    let mut tail: Vec<usize> = Vec::new(); // indices of write/set_len entries since then
+    let mut returned = 0usize; // ops that had returned
+    let mut started = 0usize; // ops that had been started
+    let extra = if obs.tier == Tier::Quick { 2 } else { 8 };
+    for p in 0..=log.len() {
+        // crash just before entry p
+        if p < init_len {
+            match &log[p] {
+                Entry::Sync => {
+                    for &i in &tail {
+                        apply(&mut base, &log[i]);
+                    }
+                    tail.clear();
+                }
+                Entry::Write { .. } | Entry::SetLen(_) => tail.push(p),
+                _ => {}
+            }
+            continue;
+        }
+        let writes_in_tail: Vec<usize> = tail.iter().copied().filter(|i| matches!(log[*i], Entry::Write { .. })).collect();
+        let mut variants: Vec<(String, Vec<bool>)> = Vec::new(); // keep-mask over writes_in_tail
+        let m = writes_in_tail.len();
+        variants.push(("all-unsynced-writes-lost".into(), vec![false; m]));
+        if m > 0 {
+            variants.push(("all-unsynced-writes-kept".into(), vec![true; m]));
+            let mut rng = Prng::new(case.subset_seed ^ (p as u64).wrapping_mul(0x9E3779B97F4A7C15));
+            for _ in 0..extra {
+                variants.push(("random-subset".into(), (0..m).map(|_| rng.next_u64() & 1 == 1).collect()));
+            }
+            if m <= 8 {
+                for d in 0..m {
+                    variants.push(("single-write-dropped".into(), (0..m).map(|i| i != d).collect()));
+                }
+            }
+        }
+        variants.dedup_by(|a, b| a.1 == b.1);
+        for (vname, mask) in variants {
+            let mut img = base.clone();
+            let mut wi = 0;
+            for &i in &tail {
+                match &log[i] {
+                    Entry::Write { .. } => {
+                        if mask[wi] {
+                            apply(&mut img, &log[i]);
+                        }
+                        wi += 1;
+                    }
+                    e => apply(&mut img, e), // set_len: assumed ordered metadata, always applied
+                }
+            }
+            let inside_op = started > returned;
+            let partial = mask.iter().any(|b| *b) && mask.iter().any(|b| !*b);
+            let nontrivial = inside_op && partial;
+            obs.eval(nontrivial.then(|| digest_bytes(&img) ^ p as u64));
+            obs.label(&vname);
+            if inside_op {
+                obs.label("crash-inside-operation");
+            }
+            if nontrivial {
+                obs.label("crash-inside-operation-partial-writes");
+            }
+            match reopen(img, &u.heights, &u.hashes).await {
+                Err(e) => {
+                    obs.fail(
+                        "C22:reopen-failed",
+                        format!("crash before log entry {p}/{} ({vname}, {} unsynced writes, ops returned {returned}, started {started}): {e}; history: {descs:?}", log.len(), m),
+                    )?;
+                }
+                Ok(snap) => {
+                    // must equal the model after some prefix k with returned <= k <= started
+                    let lo = returned.min(ops_run);
+                    let hi = started.min(ops_run);
+                    let ok = (lo..=hi).any(|k| prefix_snaps[k] == snap);
+                    if !ok {
+                        let any_prefix = (0..=ops_run).find(|k| prefix_snaps[*k] == snap);
+                        let sig = if any_prefix.is_some() { "C22:returned-operation-lost" } else { "C22:state-is-no-prefix" };
+                        obs.fail(
+                            sig,
+                            format!(
+                                "crash before log entry {p}/{} ({vname}, {m} unsynced writes): reopened state matches prefix {:?}, allowed prefixes {lo}..={hi}; vs prefix {hi}: {}; history: {descs:?}",
+                                log.len(),
+                                any_prefix,
+                                diff(&snap, &prefix_snaps[hi])
+                            ),
+                        )?;
+                    }
+                }
+            }
+        }
+        if p == log.len() {
+            break;
+        }
+        match &log[p] {
+            Entry::Sync => {
+                for &i in &tail {
+                    apply(&mut base, &log[i]);
+                }
+                tail.clear();
+            }
+            Entry::Write { .. } | Entry::SetLen(_) => tail.push(p),
+            Entry::Start(k) => started = k + 1,
+            Entry::Ret(k) => returned = k + 1,
+        }
+    }
+    Ok(())
+}
+
+pub fn run(ctx: &mut Ctx) {
+    ctx.assume("redb storage model: a `write` call is applied entirely or not at all; nothing written before a completed sync_data is lost; writes are not reordered across sync_data; set_len is ordered metadata and always survives");
+    ctx.assume("the history's expected states come from the C19 model; histories are cut where the live store disagrees with the model (C19 judges that)");
+    ctx.essential(&["crash-inside-operation-partial-writes", "all-unsynced-writes-lost", "all-unsynced-writes-kept", "single-write-dropped"]);
+    ctx.set_shrink_iters(40);
+    let (max_len, max_ops, cases) = match ctx.tier {
+        Tier::Quick => (30, 14, 16),
+        Tier::Thorough => (60, 40, 160),
+    };
+    ctx.proptest(
+        "crash-points",
+        "history (C19 op mix, 5..N ops) run once on RedbStore over a logging backend; EVERY log position (write / set_len / sync / op-start / op-return) is a crash point; surviving image = last synced image + subset of later whole writes (none, all, generated subsets, each single write dropped for tails <= 8). One evaluation per (crash point, subset). Non-trivial = crash strictly inside an operation with a partial subset (distinct by image digest)",
+        cases,
+        move || (c19::case_strategy(max_len, max_ops), any::<u64>()).prop_map(move |(mut history, subset_seed)| {
+            history.ops.truncate(max_ops);
+            CrashCase { history, subset_seed }
+        }),
+        |case, obs| {
+            let rt = tokio::runtime::Builder::new_current_thread().enable_all().build().unwrap();
+            rt.block_on(run_case(case, obs))
+        },
+    );
 }
